@@ -68,6 +68,13 @@ def make (c):
             if not on:      # sources are placed by location on the equal segmentation
                 g ['taper'] = [int (rng.integers (1, 4)), float (8.5 * g ['r']), None]
     n = len (spec ['geo'])
+    rd = np.random.default_rng ([c ['seed'], 61, c ['i']])
+    if n >= 2 and not sym and rd.random () < 0.25 and not any (g.get ('taper') for g in spec ['geo']):
+        # one object (or two) of lossy or insulated conductor, the others bare: which wire carries the load must
+        # not depend on order or direction (explicit tags then realise the order of the objects)
+        objs = [int (x) for x in rd.permutation (n) [: int (rd.integers (1, min (n, 3)))]]
+        kind = str (rd.choice (['skin', 'skin', 'ins']))
+        spec ['dist'] = dict (objs = objs, kind = kind, cond = float (10 ** rd.uniform (3, 6)), eps = float (rd.uniform (1.5, 4)), rfac = float (rd.uniform (1.3, 3)))
     spec ['var'] = dict ( masks = [[int (x) for x in rng.integers (0, 2, n)] for k in range (2)]
                         , perm = [int (x) for x in rng.permutation (n)]
                         , tags = [int (x) for x in rng.permutation (n) + 1], explicit = bool (rng.random () < 0.5)
@@ -122,6 +129,8 @@ def symmetric (rng):
 def variant (spec, mask = None, perm = None, tags = None, split = None):
     s = copy.deepcopy ({k: v for k, v in spec.items () if k not in ('var', 'sym')})
     geo = s ['geo']
+    for i, g in enumerate (geo):
+        g ['_id'] = i
     if split:
         for wi, frac in split:
             g = geo [wi]
@@ -134,6 +143,7 @@ def variant (spec, mask = None, perm = None, tags = None, split = None):
             a  = gen.wire (n1, p1, q, g ['r'])
             b  = gen.wire (g ['n'] - n1, q, p2, g ['r'])
             a ['done'] = b ['done'] = True
+            a ['_id'] = b ['_id'] = g ['_id']
             geo [wi] = a
             geo.append (b)
         for g in geo:
@@ -149,6 +159,23 @@ def variant (spec, mask = None, perm = None, tags = None, split = None):
     if tags and len (tags) == len (s ['geo']):
         for g, t in zip (s ['geo'], tags):
             g ['tag'] = t
+    d = s.pop ('dist', None)
+    if d:
+        if tags and len (tags) == len (s ['geo']):
+            # objects are ordered by tag: put the list into that order first
+            s ['geo'] = [g for t, g in sorted (zip (tags, s ['geo']), key = lambda x: x [0])]
+        # curves are collected before wires on the command line
+        s ['geo'] = [g for g in s ['geo'] if g ['k'] != 'w'] + [g for g in s ['geo'] if g ['k'] == 'w']
+        s ['loads'] = list (s.get ('loads') or [])
+        for i, g in enumerate (s ['geo']):
+            g ['tag'] = i + 1
+            if g ['_id'] in d ['objs']:
+                if d ['kind'] == 'skin':
+                    s ['loads'].append (dict (k = 'skin', cond = d ['cond'], tag = i + 1))
+                else:
+                    s ['loads'].append (dict (k = 'ins', radius = d ['rfac'] * max (x ['r'] for x in s ['geo']), eps = d ['eps'], tag = i + 1))
+    for g in s ['geo']:
+        g.pop ('_id', None)
     if any (g.get ('taper') for g in s ['geo']):
         # --taper-wire names a tag: keep the order that the automatic tags would give (curves first)
         from pmv.oracles import georef
@@ -271,8 +298,21 @@ def check (c):
             judge ('mirror', d, tol, 'mirror-symmetric structure with symmetric feed: currents deviate %.3g from their mirror image' % d)
     if not kinds:
         return dict (status = 'discard', reason = 'no variant')
-    sig = gen.signature (base, m0, extra = ['+'.join (sorted (kinds))])
+    sig = gen.signature (base, m0, extra = ['+'.join (sorted (kinds))] + (['dist-' + spec ['dist']['kind']] if spec.get ('dist') else []))
     jt = [x for x in gen.junction_clusters (m0) if len (x) > 1]
+    if viol and spec.get ('dist'):
+        # known finding: a lossy / insulated wire on a junction of three or more wires. The deviation is classified as
+        # that finding only if a loaded object takes part in such a junction and the same descriptions agree
+        # once the distributed load is taken away
+        loaded = [gi for gi, g in enumerate (m0.geo) if any (l.__class__.__name__ in ('Skin_Effect_Load', 'Insulation_Load') and l.geobj is g for l in m0.loads)]
+        if any (len (cl) >= 3 and any (gi in loaded for gi, e in cl) for cl in jt):
+            bare = check ({k: v for k, v in spec.items () if k != 'dist'})
+            if bare.get ('status') == 'held':
+                for v in viol:
+                    if v ['key'] != observe.IMP_KEY:
+                        v ['key'] = 'distributed-load-on-junction-of-three'
+                margins = {k: v for k, v in (bare.get ('margins') or {}).items ()}
+                worst   = bare.get ('margin') or 0.0
     nontrivial = bool (jt) or m0.media is not None
     return dict ( status = 'violation' if viol else 'held', sig = sig, nontrivial = nontrivial, margin = worst, margins = margins
                 , monitors = {k.split (':') [0]: v for k, v in mon.items ()}, violations = viol, info = dict (cond = o0 ['cond'], variants = sorted (kinds)))
